@@ -1,6 +1,8 @@
 import Srctools.Wire
 import Srctools.Model.C20
 import Srctools.Model.C20Bvcd
+import Srctools.Model.C20Snd
+import Srctools.Gen.Kvser
 import Srctools.Gen.Tok
 import Srctools.Gen.C20
 /-! Driver for the C20 models. Byte strings travel as hex strings, text as code-point arrays,
@@ -20,6 +22,9 @@ big integers as decimal strings.
   {"op":"vmt_quote","s":[cp…]}          → {"r":[cp…]}
   {"op":"bvcd_enc","scene":S,"pool0":[hex…]} → {"r":hex,"pool":[hex…],"strs":[hex…]}   (pool = pool0 + strings in call order)
   {"op":"bvcd_dec","b":hex,"pool":[hex…]}    → {"r":null|S}
+  {"op":"snd_export","sound":SND}          → {"text":[cp…],"kv":KV,"norm":OUT}   (Sound.export text, the tree it denotes, normSnd)
+  {"op":"snd_parse","kv":KV,"env":ENV}     → {"r":OUT|{"err":…}}                 (Sound.parse_one on a Keyvalues tree)
+        KV = ["l",[cp],[cp]] | ["b",[cp],[KV…]]
   {"op":"img_save","version":N,"entries":[{"crc","dur","last","sounds":[hex],"comp":hex,"scene":S|null,
         "lazy":null|[poolId,[hex…],hex]}…]}      → {"r":hex|null}   (save_scenes_image_sync on a mix of parsed and lazy entries)
   S = {"crc","events":[E],"actors":[{"name","active","channels":[{"name","active","events":[E]}]}],"ramp":[[t,Q]],"ip"}
@@ -206,6 +211,83 @@ def sceneJ (s : Scene) : Json :=
 
 end BJ
 
+namespace SJ
+open C20.Snd C01
+
+def strOf (j : Json) : Except String (List Char) := Wire.strOfCodes j
+def strJ (s : List Char) : Json := Wire.codesOfStr s
+
+partial def kvOf (j : Json) : Except String KV := do
+  let a ← j.getArr?
+  let k ← (a[0]!).getStr?
+  if k == "l" then pure (KV.leaf (← strOf a[1]!) (← strOf a[2]!))
+  else do
+    let cs ← (← (a[2]!).getArr?).toList.mapM kvOf
+    pure (KV.block (← strOf a[1]!) cs)
+
+partial def kvJ : KV → Json
+  | KV.leaf n v => Json.arr #[Json.str "l", strJ n, strJ v]
+  | KV.block n cs => Json.arr #[Json.str "b", strJ n, Json.arr (cs.map kvJ).toArray]
+
+def valOf (j : Json) : Except String Val := do
+  let a ← j.getArr?
+  let k ← (a[0]!).getStr?
+  if k == "enum" then pure (Val.enum (← strOf a[1]!)) else pure (Val.num (← strOf a[1]!))
+
+def valJ : Val → Json
+  | .enum n => Json.arr #[Json.str "enum", strJ n]
+  | .num t => Json.arr #[Json.str "num", strJ t]
+
+def pairOf (j : Json) : Except String Pair := do
+  let a ← j.getArr?
+  pure { lo := ← valOf a[0]!, hi := ← valOf a[1]!, same := ← (a[2]!).getBool? }
+
+def chanOf (j : Json) : Except String Chan := do
+  let a ← j.getArr?
+  let k ← (a[0]!).getStr?
+  if k == "enum" then pure (Chan.enum (← strOf a[1]!)) else pure (Chan.int (← strOf a[1]!))
+
+def chanJ : Chan → Json
+  | .enum n => Json.arr #[Json.str "enum", strJ n]
+  | .int t => Json.arr #[Json.str "int", strJ t]
+
+def kvsOf (j : Json) : Except String (List KV) := do (← j.getArr?).toList.mapM kvOf
+
+def soundOf (j : Json) : Except String SoundIn := do
+  pure { name := ← strOf (← j.getObjVal? "name"),
+         waves := ← (← (← j.getObjVal? "waves").getArr?).toList.mapM strOf,
+         volume := ← pairOf (← j.getObjVal? "volume"), volDefault := ← j.getObjValAs? Bool "volDefault",
+         pitch := ← pairOf (← j.getObjVal? "pitch"), pitchDefault := ← j.getObjValAs? Bool "pitchDefault",
+         level := ← pairOf (← j.getObjVal? "level"), channel := ← chanOf (← j.getObjVal? "channel"),
+         forceV2 := ← j.getObjValAs? Bool "forceV2", start := ← kvsOf (← j.getObjVal? "start"),
+         update := ← kvsOf (← j.getObjVal? "update"), stop := ← kvsOf (← j.getObjVal? "stop") }
+
+def pairsOf (j : Json) : Except String (List (List Char × List Char)) := do
+  (← j.getArr?).toList.mapM fun p => do
+    let a ← p.getArr?
+    pure (← strOf a[0]!, ← strOf a[1]!)
+
+def envOf (j : Json) : Except String Env := do
+  let fold ← (← (← j.getObjVal? "fold").getArr?).toList.mapM fun p => do
+    let a ← p.getArr?
+    pure (Char.ofNat (← (a[0]!).getNat?), ← strOf a[1]!)
+  pure { fold := fun c => match fold.find? (·.1 == c) with | some p => p.2 | none => [c],
+         volumes := ← pairsOf (← j.getObjVal? "volumes"), pitches := ← pairsOf (← j.getObjVal? "pitches"),
+         levels := ← pairsOf (← j.getObjVal? "levels"),
+         channels := ← (← (← j.getObjVal? "channels").getArr?).toList.mapM strOf,
+         canon := ← pairsOf (← j.getObjVal? "canon") }
+
+def vvJ (p : Val × Val) : Json := Json.arr #[valJ p.1, valJ p.2]
+
+def outJ (s : SoundOut) : Json :=
+  Json.mkObj [("name", strJ s.name), ("waves", Json.arr (s.waves.map strJ).toArray), ("volume", vvJ s.volume),
+    ("pitch", vvJ s.pitch), ("level", vvJ s.level), ("channel", chanJ s.channel), ("v2", Json.bool s.v2),
+    ("stacks", match s.stacks with
+      | none => Json.null
+      | some (a, b, c) => Json.arr #[Json.arr (a.map kvJ).toArray, Json.arr (b.map kvJ).toArray,
+                                     Json.arr (c.map kvJ).toArray])]
+end SJ
+
 def handle (j : Json) : Except String Json := do
   let op ← j.getObjValAs? String "op"
   let r (x : Json) := Json.mkObj [("r", x)]
@@ -247,6 +329,15 @@ def handle (j : Json) : Except String Json := do
   | "vmt_quote" =>
     pure (r (Wire.codesOfStr (vmtQuote Gen.Tok.tables Gen.C20.vmtLead
       (← Wire.strOfCodes (← j.getObjVal? "s")))))
+  | "snd_export" =>
+    let snd ← SJ.soundOf (← j.getObjVal? "sound")
+    pure (Json.mkObj [("text", Wire.codesOfStr (C20.Snd.exportSndText Gen.Tok.tables Gen.Kvser.cfg snd)),
+      ("kv", SJ.kvJ (C20.Snd.exportSndKV snd)), ("norm", SJ.outJ (C20.Snd.normSnd snd))])
+  | "snd_parse" =>
+    let env ← SJ.envOf (← j.getObjVal? "env")
+    pure (r (match C20.Snd.parseSnd env (← SJ.kvOf (← j.getObjVal? "kv")) with
+      | .ok o => SJ.outJ o
+      | .error e => Json.mkObj [("err", Json.str (reprStr e))]))
   | "img_save" =>
     let es ← (← (← j.getObjVal? "entries").getArr?).toList.mapM fun e => do
       let lz ← e.getObjVal? "lazy"
